@@ -282,43 +282,66 @@ leaf's own names (`namesAsIs`: as shipped before the K01a repair, the nodes' nam
 def boundCtx (namesAsIs : Bool) (lf : Leaf) (st : Ctx × List (Bytes × Bytes)) : Ctx :=
   if namesAsIs then bindNamesAsIs st.1 st.2 else bindNames st.1 lf.names st.2
 
-/-- the traversal loop of `getRoute` from the node with key `cur`; the state is the context and the local
-`overflow`. `wildUnchecked` selects the wildcard branch as shipped before the K01e repair (constraints
-of a wildcard route never validated), `namesAsIs` the parameter naming as shipped before the K01a repair. -/
-def walkGen (wildUnchecked namesAsIs : Bool) (sat : Nat → Bytes → Bool) (ns : Nodes) (trail : Bool) :
-    Key → Ctx × List (Bytes × Bytes) → List Bytes → Option Leaf × Ctx
-  | _, st, [] => (none, st.1)                      -- "reached end of path without matching"
+/-- `(*node).accepts`: the node carries a route, the captured values are named after it, its constraints
+accept them; the result is the leaf with the context its handler sees -/
+def acceptsGen (namesAsIs : Bool) (sat : Nat → Bytes → Bool) (l : Option Leaf) (st : Ctx × List (Bytes × Bytes)) : Option (Leaf × Ctx) :=
+  match l with
+  | some lf =>
+    let ctx1 := boundCtx namesAsIs lf st
+    if validate sat lf.cons ctx1 then some (lf, ctx1) else none
+  | none => none
+
+/-- `(*node).descend` from the node with key `cur`; the state is the context and the local `overflow`
+(an abandoned alternative's captures are dropped: the state is simply not threaded through). The three
+alternatives for a segment — static child, parameter child, wildcard — are tried in this order and the
+first that leads to an accepting route wins (since the K01b/K01f repair).
+`wildUnchecked` selects the wildcard branch as shipped before the K01e repair (constraints of a wildcard
+route never validated), `namesAsIs` the parameter naming as shipped before the K01a repair, `noBacktrack`
+the descent as shipped before the K01b/K01f repair (the first alternative that exists is final). -/
+def walkGen (wildUnchecked namesAsIs noBacktrack : Bool) (sat : Nat → Bytes → Bool) (ns : Nodes) (trail : Bool) :
+    Key → Ctx × List (Bytes × Bytes) → List Bytes → Option (Leaf × Ctx)
+  | _, _, [] => none                               -- the path ended (trailing slash) before a route did
   | cur, st, seg :: rest =>
     let isLast := rest.isEmpty && !trail
-    let next (cur1 : Key) (st1 : Ctx × List (Bytes × Bytes)) : Option Leaf × Ctx :=
-      if isLast then
-        match (getK ns cur1).leaf with
-        | some lf =>
-          let ctx1 := boundCtx namesAsIs lf st1
-          if validate sat lf.cons ctx1 then (some lf, ctx1) else (none, ctx1)
-        | none => (none, st1.1)
-      else walkGen wildUnchecked namesAsIs sat ns trail cur1 st1 rest
-    if hasK ns (cur ++ [ESeg.s seg]) then next (cur ++ [ESeg.s seg]) st
-    else match (getK ns cur).pname with
+    let next (cur1 : Key) (st1 : Ctx × List (Bytes × Bytes)) : Option (Leaf × Ctx) :=
+      if isLast then acceptsGen namesAsIs sat (getK ns cur1).leaf st1
+      else walkGen wildUnchecked namesAsIs noBacktrack sat ns trail cur1 st1 rest
+    let viaParam (_ : Unit) : Option (Leaf × Ctx) :=
+      match (getK ns cur).pname with
       | some key => next (cur ++ [ESeg.p]) (pushT st key seg)
-      | none => match (getK ns cur).wild with
-        | some lf =>
-          let ctx1 := boundCtx namesAsIs lf (pushT st wildParam (restOfPath (seg :: rest) trail))
-          if wildUnchecked || validate sat lf.cons ctx1 then (some lf, ctx1) else (none, ctx1)
-        | none => (none, st.1)
+      | none => none
+    let viaWild (_ : Unit) : Option (Leaf × Ctx) :=
+      match (getK ns cur).wild with
+      | some lf =>
+        let st1 := pushT st wildParam (restOfPath (seg :: rest) trail)
+        if wildUnchecked then some (lf, boundCtx namesAsIs lf st1) else acceptsGen namesAsIs sat (some lf) st1
+      | none => none
+    if noBacktrack then
+      if hasK ns (cur ++ [ESeg.s seg]) then next (cur ++ [ESeg.s seg]) st
+      else if (getK ns cur).pname.isSome then viaParam ()
+      else viaWild ()
+    else
+      match (if hasK ns (cur ++ [ESeg.s seg]) then next (cur ++ [ESeg.s seg]) st else none) with
+      | some r => some r
+      | none =>
+        match viaParam () with
+        | some r => some r
+        | none => viaWild ()
 
-def walk := walkGen false false
+def walk := walkGen false false false
 
 /-- `(*node).getRoute(path, ctx)` -/
-def getRouteGen (wildUnchecked namesAsIs : Bool) (sat : Nat → Bytes → Bool) (t : Tree) (path : Bytes) (ctx : Ctx) : Option Leaf × Ctx :=
+def getRouteGen (wildUnchecked namesAsIs noBacktrack : Bool) (sat : Nat → Bytes → Bool) (t : Tree) (path : Bytes) (ctx : Ctx) : Option Leaf × Ctx :=
   if path = ['/'] ∨ path = [] then ((getK t.nodes []).leaf, ctx)
   else match getStatic path t.statics with
     | some lf => (some lf, ctx)
     | none =>
       let (segs, trail) := parsePath path
-      walkGen wildUnchecked namesAsIs sat t.nodes trail [] (ctx, []) segs
+      match walkGen wildUnchecked namesAsIs noBacktrack sat t.nodes trail [] (ctx, []) segs with
+      | some (lf, c) => (some lf, c)
+      | none => (none, ctx)
 
-def getRoute := getRouteGen false false
+def getRoute := getRouteGen false false false
 
 /-- `tree.compiled.getRoute(path)`: the per-tree table of static routes built at warm-up holds exactly the
 `staticPaths` entries (nodes reached through edges never carry a parameter-free path); bloom filter and
